@@ -200,6 +200,13 @@ def fixed_pairs():
               d + 'parser { "x"; b = [a + v]; "y"; }\n'))
     P.append((d + 'macro foo() { x = 7; }\nmacro m(hook foo) { foo(); }\nparser { "a"; m(h0); "b"; }\n',
               d + 'parser { "a"; h0(); "b"; }\n'))
+    # names of the calling macros forwarded through two levels: each level's hidden bindings must stay apart
+    P.append((d + 'macro B(expr e2, out dst) { dst = e2; "k"; }\nmacro A(expr e, out n) { B([n * 100 + e], v); }\nmacro T(out n) { A([n + 1], y); }\n'
+                  'parser { "a"; T(a); "b"; }\n',
+              d + 'parser { "a"; v = [y * 100 + (a + 1)]; "k"; "b"; }\n'))
+    P.append((d + 'macro B(expr e2, out dst) { dst = e2; "k"; }\nmacro A(expr e, out n, out m) { B([n + m * 10 + e], v); }\nmacro T(out n, out m) { A([n - m], m, n); }\n'
+                  'parser { "a"; T(x, y); "b"; }\n',
+              d + 'parser { "a"; v = [y + x * 10 + (x - y)]; "k"; "b"; }\n'))
     return P
 
 
